@@ -253,6 +253,9 @@ LoopBoxes:
 					isEncrypted := true
 					defaultIVSize := byte(0) // Should get this from tenc in sinf
 					if f.Moov != nil {
+						if traf.Tfhd == nil {
+							return nil, fmt.Errorf("traf box without tfhd")
+						}
 						trackID := traf.Tfhd.TrackID
 						isEncrypted = f.Moov.IsEncrypted(trackID)
 						sinf := f.Moov.GetSinf(trackID)
